@@ -136,7 +136,7 @@ prop('C15',
      not_covered=[
          'Cnf::new (iterator chains, sort_by_key, dedup) [bounded check `cnf` only]', 'Cnf::condition is under contract -- (F | l) evaluates on every assignment a like F on a with l\'s variable set to l\'s polarity, by invariants over the two real loops (whole clause skipped on a literal equal to l, the opposite literal dropped) -- with two declared loop-header rewrites (R-for-while: labelled `continue` needs a `while`) and its final call `Cnf::new(&new_cnf)` answered by the stub of A-cnf-new [+ bounded check `cnf`]', 'CnfHasher (HashSet; external prime sieve; labelled continue): the residual-formula hasher sentence of the property has a bounded check only (`hasher`)',
          'AssignmentIter::next (fold closure) and Cnf::wmc (brute-force counting) [bounded check `cnf` only; it found the empty-formula defect fixed in 18754bc]',
-         'VarSet union / minus / intersect_varset / difference and PartialModel constructors / assignment_iter / difference (BitSet iterator adapters) [bounded check `cnf` only]',
+         'PartialModel::new / from_assignments / from_total_model / from_litvec are under contract (variable i gets exactly entry i; the last literal on a variable wins; everything else unset; never in both sets) with declared header rewrites (R-enumerate, R-map-collect) and BitSet::new / with_capacity as stubs returning the empty set (A-bitset)', 'VarSet union / minus / intersect_varset / difference and PartialModel assignment_iter / difference (BitSet iterator adapters) [bounded check `cnf` only]',
      ])
 
 prop('C09',
@@ -168,7 +168,7 @@ prop('C14',
                  'get(order[i]) == i; new_last (run-time extension) preserves wf, keeps every old position and appends the new label; get / var_at_level / lt / lte / first / first_essential / sort / above / below are proved against the maps.  '
                  'dtree helpers (unit dtree): init_vars establishes vars = vars(l) U vars(r) at every node and the clause variables at every leaf; gen_cutset establishes cutset = (vars(l) /\\ vars(r)) minus the ancestors\' cutsets at every node (leaf: remaining variables) and changes nothing else; balanced keeps exactly the leaves of its input trees, in order',
      not_covered=[
-         'VarOrder::linear_order ((0..n).map(..).collect(): iterator chain; it only calls VarOrder::new, which is proved) [+ bounded check `order`]',
+         'VarOrder::linear_order is under contract (the identity order: label v at level v) with one declared rewrite (R-map-collect over the range) [+ bounded check `order`]',
          'min-fill (petgraph) and FORCE (f64, sort_by, partial_cmp) order heuristics [bounded check `order` only: the result is a bijection]',
          'DTree::from_cnf is under contract -- the leaves are exactly the clauses of the formula (every clause occurs at the leaves as often as in the formula), vars = clause variables at a leaf / union of the children at a node everywhere, cutsets = shared by the children and not cut above, for ANY sequence of labels as elimination order -- with three declared rewrites that replace std iterator adaptors by their definition over the same elements (R-map-collect, R-partition, R-for-while over the stub of in_order_iter: A-order-iter); it requires at least one clause (for the empty formula the real function panics in `balanced`: there is no dtree without leaves) [+ bounded check `dtree`]; cutwidth is not under contract', 'VTree::from_dtree (cutset.iter().collect()) [bounded check `dtree` only], VTreeManager [bounded check `vtree` only: dense labels, <= 6 leaves; it found the variable-count defect fixed in ad19bb4] (in-order indices, lca via segment tree, prime test, variable count)',
      ])
